@@ -3,6 +3,7 @@ package main
 import (
 	"fmt"
 	"go/types"
+	"os"
 	"regexp"
 	"strconv"
 	"strings"
@@ -78,18 +79,29 @@ func hdrParam(params, key string) (int64, bool) {
 
 // flattenAppend turns an append chain into the list of appended values.
 func flattenAppend(S *Store, t *Term) ([]*Term, []*Event, bool) {
+	vals, evs, _, ok := flattenAppendBase(S, t)
+	return vals, evs, ok
+}
+
+// flattenAppendBase also returns the object backing the initial empty slice (nil for a nil slice).
+func flattenAppendBase(S *Store, t *Term) ([]*Term, []*Event, *Term, bool) {
 	var vals []*Term
 	var evs []*Event
+	var base *Term
 	for {
-		if _, off, ln, ok := isSliceOf(t); ok {
+		if t.IsNil() {
+			break // nil slice: empty start
+		}
+		if root, off, ln, ok := isSliceOf(t); ok {
 			// initial empty slice
 			if isZero(off) && isZero(ln) {
+				base = root
 				break
 			}
-			return nil, nil, false
+			return nil, nil, nil, false
 		}
 		if t.K != KSym || t.Sym.Ev == nil || t.Sym.Ev.Kind != "call" || t.Sym.Ev.Callee != "builtin:append" {
-			return nil, nil, false
+			return nil, nil, nil, false
 		}
 		e := t.Sym.Ev
 		vals = append(append([]*Term{}, e.Args[1:]...), vals...)
@@ -98,7 +110,7 @@ func flattenAppend(S *Store, t *Term) ([]*Term, []*Event, bool) {
 		}
 		t = e.Args[0]
 	}
-	return vals, evs, true
+	return vals, evs, base, true
 }
 
 func resultSlot(fn *ssa.Function, kind string) int {
@@ -261,8 +273,22 @@ func ruleC13(c *Check, p *Prog) {
 			continue
 		}
 		pT, qT = S.Restrict(pT, bodyG), S.Restrict(qT, bodyG)
-		pv, pe, ok1 := flattenAppend(S, pT)
-		qv, qe, ok2 := flattenAppend(S, qT)
+		pv, pe, pbase, ok1 := flattenAppendBase(S, pT)
+		qv, qe, qbase, ok2 := flattenAppendBase(S, qT)
+		// the row is consumed asynchronously by the writer: its slices must be allocations of this job
+		freshRow := true
+		for _, bb := range []*Term{pbase, qbase} {
+			if bb != nil {
+				if al := objAlloc(sum, bb); al == nil || al.Loop != jl {
+					freshRow = false
+				}
+			}
+		}
+		if ok1 && ok2 {
+			c.Expect(freshRow && pbase != qbase || (pbase == nil && qbase == nil), "R-ROW", "worker_"+sc.Tag+"/fresh", wherePos(p, sendEv),
+				"the P and Q slices of a row are allocated inside the job iteration (the writer consumes rows asynchronously)",
+				"the P/Q slices of a row are not fresh per job: a row still queued for the writer shares its backing array with the next file's results")
+		}
 		if !ok1 || !ok2 {
 			c.Undecided("R-COL", "worker_"+sc.Tag, wwhere, "P/Q are not append-only chains starting from an empty slice")
 			continue
@@ -748,6 +774,56 @@ func checkDetMain(c *Check, p *Prog) {
 		}
 		return S.Canon(g), ""
 	}
+	// the sample size is inferred only from counted sample files
+	if countWalk.Args[1].Op == "closure" {
+		clo := countWalk.Args[1]
+		snap := map[*Symbol]*Term{}
+		for k, v := range x.cellCur {
+			snap[k] = v
+		}
+		x.Summarize(clo.Args[0].Sym.Obj.(*ssa.Function), walkArgs(x, 0), clo.Args[1:])
+		var bitsCond, cntCond *Term
+		for _, f := range clo.Args[1:] {
+			if isCellTerm(f) {
+				cur := x.cellCur[f.Sym]
+				if cur != nil && cur.Op == "ite" {
+					if strings.HasPrefix(f.Sym.Name, "bits") {
+						bitsCond = cur.Args[0]
+					}
+					if strings.HasPrefix(f.Sym.Name, "samples") {
+						cntCond = cur.Args[0]
+					}
+				}
+			}
+		}
+		x.cellCur = snap
+		okInfer := bitsCond != nil && cntCond != nil && S.Implies(bitsCond, cntCond)
+		c.Expect(okInfer, "R-SCALE", "main/inference", wherePos(p, countWalk),
+			"the sample size is updated only for entries that are counted as samples (same suffix and directory filter)",
+			fmt.Sprintf("the sample size can be inferred from an entry that is not counted as a sample (size update under %v, count under %v): a larger non-sample file selects a wrong or unsupported scale", bitsCond, cntCond))
+	}
+	// the report is created/truncated for writing at the -o path
+	var openEv *Event
+	sum.Top.Events(func(e *Event, _ []*LoopS) {
+		if e.Kind == "call" && (e.Callee == "os.OpenFile" || e.Callee == "os.Create") {
+			openEv = e
+		}
+	})
+	okOpen := false
+	odetail := "the report is not opened with os.OpenFile/os.Create on reportPath"
+	if openEv != nil && openEv.Args[0] == S.mkOp("ld", TString, x.globalSym(p.Global(pkgDet, "reportPath"))) {
+		if openEv.Callee == "os.Create" {
+			okOpen = true
+		} else if fl, ok := intOf(argAt(openEv, 1)); ok {
+			okOpen = fl&int64(os.O_CREATE) != 0 && fl&int64(os.O_TRUNC) != 0 && (fl&int64(os.O_WRONLY) != 0 || fl&int64(os.O_RDWR) != 0) && fl&int64(os.O_APPEND) == 0
+			odetail = fmt.Sprintf("open flags %#x: the report must be created and truncated for writing (stale rows of an earlier, longer report would remain)", fl)
+		}
+		if okOpen && hdrWrite.Args[0] != S.mkOp("extract0", TRef, S.SymTerm(openEv.Res)) {
+			okOpen = false
+			odetail = "the header is not written to the file just opened"
+		}
+	}
+	c.Expect(okOpen, "R-SCALE", "main/report-open", wherePos(p, openEv), "the report file at the -o path is created and truncated for writing; header and rows go to it", odetail)
 	gJob, m1 := filt(walkGo, 0, "send")
 	gCnt, m2 := filt(countWalk, 0, "count")
 	if m1 != "" || m2 != "" {
